@@ -441,7 +441,7 @@ struct OneShotSim : Sim {
                 if (nt)
                         inplace = 0;
                 int tag_len = 8 + 4 * (int) ((o.a >> 8) % 3);
-                size_t aad_len = (size_t) ((o.a >> 10) % 3 == 0 ? 0 : (o.b >> 5) % 64);
+                size_t aad_len = gcm_aad_len_class(mix64((uint64_t) o.a >> 10, (uint64_t) o.b >> 5));
                 Rng g((uint64_t) o.c, "gcm");
                 uint8_t *key = e.mem.alloc(KB[k], 1, (Place) (o.d % 3), nullptr, "raw key", R_INPUT, (size_t) ((o.d >> 2) % 16));
                 g.fill(key, KB[k]);
